@@ -300,6 +300,17 @@ def exact_oracle(ctx):
             if s2.tell() - off != n:
                 return Failure("C05/inexact-parse/%s" % fk, "sizeof(%s) == %d but parse_stream of %s + %s from offset %d advanced by %d | spec=%s" % (
                     params, n, built.hex(), trailing.hex(), off, s2.tell() - off, short(spec, 500)))
+            # the same construct skipped instead of parsed: Lazy(x) has x's size, and skipping by the measured size
+            # (_actualsize) must move the stream exactly as far
+            lz = C.Lazy(con)
+            kl, ol = sizeof_outcome(lz, kw)
+            s3 = io.BytesIO(b"\xcc" * off + built + trailing)
+            s3.seek(off)
+            pl = call(lz.parse_stream, s3, **params)
+            ctx.tally("exact/lazy-twin")
+            if kl != "int" or ol.value != n or not pl.ok or s3.tell() - off != n:
+                return Failure("C05/inexact-lazy/%s" % fk, "sizeof == %d; Lazy(x): sizeof -> %r, parse_stream from offset %d -> %s, advanced by %d | spec=%s" % (
+                    n, ol, off, "ok" if pl.ok else repr(pl), s3.tell() - off, short(spec, 500)))
         return None
     return oracle
 
